@@ -180,7 +180,16 @@ def impl(case):
             return dict(field=f, back=[[k, type(v).__name__, v] for k, v in back.items()])
         if op == 'params':
             p = d / 'params.py'
-            M.write_python(p, dict(case['data']))
+            def wrap(v):
+                # numbers and flags as NumPy scalars (what arithmetic on loaded arrays hands back)
+                if case.get('npvalues') and isinstance(v, bool):
+                    return np.bool_(v)
+                if case.get('npvalues') and isinstance(v, int):
+                    return np.int32(v) if case['npvalues'] == 32 else np.int64(v)
+                if case.get('npvalues') and isinstance(v, float):
+                    return np.float64(v)
+                return v
+            M.write_python(p, {k: wrap(v) for k, v in case['data']})
             back = M.read_python(p)
             return dict(back=[[k, type(v).__name__, v] for k, v in back.items()])
     raise ValueError(op)
@@ -371,4 +380,4 @@ def gen(tier, rng):
         data = []
         for k in keys:
             data.append([k, rng.pick([3, 2.5, True, None, 'int16', 'a b', [1, 2], ['x.dat', 'y.dat'], [], 30000.0, -1])])
-        yield dict(p=PID, op='params', data=data)
+        yield dict(p=PID, op='params', data=data, npvalues=rng.pick([0, 0, 32, 64]))
